@@ -234,6 +234,26 @@ def run(ctx):
             cl5 = [_px5.desc(thir.peel(thir.root(c))) for c in facts.children(vt[0]) if c.kind == "closure"]
             okv = tcalls == [["origin"]] and "ProjectType::is_vcs(pt)" in cl5
         ctx.require(okv, "R20.5", "cli-vcs-types", "dirs::vcs_types(origin) = the types of `origin` that are version control", detail=str(vt and (tcalls, cl5))[:200])
+        if vt:
+            # ... on every path: the answer is always the filtered result of project_origins::types(origin), no shortcut on a single marker
+            root5 = thir.root(vt[0])
+            _px5.SUBST = _px5.let_substitutions(root5, deep=True)
+            try:
+                ps5 = _px5.Enum(interesting=lambda d_: "project_origins" in d_).paths(root5)
+            finally:
+                _px5.SUBST = {}
+            vals5 = sorted({"%s %s" % (q.out, (q.val or "").replace("^", "")) for q in ps5})
+            ctx.require(vals5 == ["val Iterator::collect(Iterator::filter(IntoIterator::into_iter(await project_origins::types(origin)), closure))"], "R20.5", "cli-vcs-types-every-path",
+                        "every path through dirs::vcs_types returns the filtered types of the origin", vt[0].loc(vt[0].line), detail=str(vals5)[:300],
+                        fail="dirs::vcs_types has a path that does not go through project_origins::types (%s): the types reported for the origin no longer correspond to the markers present in it" % vals5[:3])
+        # the origin falls back to the working directory as given when nothing was found (not to some other directory)
+        po5 = [f for f in facts.fns_matching(r"^watchexec_cli::dirs::project_origin") if f.kind == "coroutine"]
+        pof = ctx.anchor_one("R20.5", "dirs::project_origin coroutine", po5[:1])
+        ins5 = sorted([_px5.desc(a).replace("^", "") for a in nd["a"]][1] for c, nd in thir.calls_in(thir.root(pof))
+                      if _sg5(c).endswith(("HashSet::insert", "HashSet::extend", "Extend::extend")) and len(nd["a"]) == 2 and _px5.desc(nd["a"][0]).replace("^", "") == "origins")
+        ctx.require(ins5 == ["Option::unwrap(Clone::clone(workdir))", "await project_origins::origins(path)"], "R20.5", "cli-origin-sources",
+                    "the CLI's candidate origins are origins(path) of each path and, when there are none, the working directory as given", pof.loc(pof.line), detail=str(ins5),
+                    fail="the CLI's candidate project origins come from %s: the project origin (and the VCS types read from it) is a directory other than the marked ancestors / the working directory" % ins5)
     except Skip:
         pass
 
